@@ -26,6 +26,7 @@ func c10Pool() []string {
 			fmt.Fprintf(&equs, "K%d EQU K%d+%d\n", i, i-1, i)
 		}
 	}
+	shared := "\tMOV AX,0\n\tADD SI,1\n\tCMP AX,0\n\tMOV ECX,1\n\tAND AX,0x00ff\n\tPUSH AX\n\tMOV AL,[SI]\nlast:\n\tJMP last\n\tDW last\n"
 	return []string{
 		/* 0 */ "\tORG 0x7c00\nentry:\n\tMOV AX,0\n\tMOV SS,AX\n\tMOV SP,0x7c00\n\tMOV SI,msg\nputloop:\n\tMOV AL,[SI]\n\tADD SI,1\n\tCMP AL,0\n\tJE fin\n\tMOV AH,0x0e\n\tINT 0x10\n\tJMP putloop\nfin:\n\tHLT\n\tJMP fin\nmsg:\n\tDB 0x0a, \"hello\", 0\n\tRESB 0x7dfe-$\n\tDB 0x55, 0xaa\n",
 		/* 1 */ "[BITS 32]\n\tMOV EAX,[ESP+4]\n\tMOV ECX,[EBX+ECX*4+8]\n\tADD EAX,0x100\n\tPUSH EAX\n\tPOP ECX\n\tOUT DX,AL\n\tRET\n",
@@ -39,6 +40,9 @@ func c10Pool() []string {
 		/* 9 */ "\tMOV AX,1\n[BITS 32]\n\tMOV EAX,1\n[BITS 16]\n\tMOV BX,2\n",
 		/* 10 */ "\tORG 0xc200\nstart:\n\tDW $\n\tMOV BX,start\n\tJMP DWORD 2*8:0x0000001b\n\tLGDT [gdtr]\n\tALIGNB 16\ngdtr:\n\tDW 8*3-1\n\tDD start\n",
 		/* 11 */ "BASE EQU 0x0ff0\nOFS EQU 4\n\tMOV BYTE [BASE],8\n\tMOV AX,[BX+OFS*2]\n\tMOV CX,(BASE+OFS)*2-1\n\tAND EAX,0x7fffffff\n\tIMUL ECX,4608\n\tSHL AX,OFS\n",
+		/* 12 */ shared,
+		/* 13 */ "[BITS 32]\n" + shared,
+		/* 14 */ "SECT EQU 18\nHEADS EQU SECT/9\n\tMOV AX,SECT*512\n\tMOV CX,SECT\n\tMOV AL,[BX+SECT]\n\tDB SECT,HEADS\n\tMOV DX,[SI+HEADS+1]\n\tMOV BX,[BP-2+SI]\n",
 	}
 }
 
